@@ -279,6 +279,57 @@ class Scheduler:
         if self.deadlock is not None:
             raise SimDeadlock(self.deadlock)
 
+    def spawn_detached(self, fn):
+        """Start a simulated thread that nobody joins (a straggler); it is
+        scheduled like any other thread.  ``join_all`` waits for all."""
+        t = SimThread(len(self.threads), self)
+        self.threads.append(t)
+        if self.policy == 'pct':
+            t.prio = self.rng.random()
+
+        def body():
+            self.by_ident[threading.get_ident()] = t
+            t.sem.acquire()
+            try:
+                if self.deadlock is None:
+                    fn()
+            except SimDeadlock:
+                pass
+            finally:
+                t.done = True
+                self._exit(t)
+        t.real = threading.Thread(target=body, daemon=True)
+        t.real.start()
+        self.max_threads = max(self.max_threads, len(self.threads))
+        self.yield_point('spawn', t.tid)
+        return t
+
+    def join_all(self):
+        """Called by the main thread: run until every other thread is done."""
+        me = self.me()
+        kids = [t for t in self.threads if t is not me]
+        if all(k.done for k in kids):
+            return
+        me.joining = kids
+        while not all(k.done for k in kids):
+            runnable = [t for t in self.threads if t.runnable()
+                        and t is not me]
+            if not runnable:
+                if self.deadlock is None:
+                    try:
+                        self._deadlock(me)
+                    except SimDeadlock:
+                        pass
+                break
+            nxt = self._choose(me, runnable, forced_away=True)
+            self._transfer_join(me, nxt)
+            if self.deadlock is not None:
+                break
+        me.joining = None
+        for k in kids:
+            if k.real is not None:
+                k.real.join(timeout=5)
+
     def _transfer_join(self, me, nxt):
         self.switches += 1
         self.current = nxt
